@@ -264,11 +264,10 @@ def check_wiring(col: Collector, repo: Repo):
     # ATLAS replacement dict
     ad = repo.method("atlas_xaod_executor", "add_to_replacement_dict")
     key = None
-    for n in ast.walk(ad.node):
-        if isinstance(n, ast.Dict):
-            for k, v in zip(n.keys, n.values):
-                if isinstance(v, ast.Call) and call_name(v) == "generate_script_block" and src(v.args[0]) == "self._job_option_blocks":
-                    key = const_str(k)
+    from sa.props._tr import const_key_entries
+    for k, v, _ in const_key_entries(ad.node):
+        if isinstance(v, ast.Call) and call_name(v) == "generate_script_block" and src(v.args[0]) == "self._job_option_blocks":
+            key = k
     overwritten = False
     if key:
         # the key must survive: returned dict is that dict (d.update(d1) where d1 = super() empty is fine)
